@@ -126,9 +126,14 @@ class Scheduler:
         cur = self._concrete_index(first, n)
         if not self._runnable(self.threads[cur]):
             cur = self._next_runnable(cur)
+        last_marked = -1
         while cur >= 0:
             self.current = cur
             t = self.threads[cur]
+            if cur != last_marked:
+                # "thread cur runs now" marker (a segment may execute no statement start at all)
+                self.trace.append((cur, "", 0))
+                last_marked = cur
             # advance one statement
             try:
                 ev = next(t.gen)
@@ -731,12 +736,15 @@ def replay_real(unit: "Unit", thread_bodies: list[Callable[[], Any]], trace: lis
         else:
             segs.append((tid, i, i))
     entries: list[list[tuple[str, int, int, bool, bool, str, int]]] = [[] for _ in range(n)]
+    empty_seg = [True] * len(segs)  # segment executes no statement start (only a resume marker)
     for k, (tid, a, b) in enumerate(segs):
         # index of this thread's next segment (where a preempted thread resumes)
         nxt = next((k2 for k2 in range(k + 1, len(segs)) if segs[k2][0] == tid), -1)
-        for i in range(a, b + 1):
+        stmts = [i for i in range(a, b + 1) if trace[i][1] != ""]
+        empty_seg[k] = not stmts
+        for i in stmts:
             _t, f, l = trace[i]
-            entries[tid].append((f, l, k, i == a, i == b, seg_ends.get(i, "done") if i == b else "", nxt))
+            entries[tid].append((f, l, k, i == stmts[0], i == stmts[-1], seg_ends.get(b, "done") if i == stmts[-1] else "", nxt))
     cv = _real_threading.Condition()
     st = {"turn": 0, "diverged": None}
     pos = [0] * n
@@ -800,7 +808,8 @@ def replay_real(unit: "Unit", thread_bodies: list[Callable[[], Any]], trace: lis
                         advance_past_dead()
                         cv.notify_all()
                     if nxt >= 0:
-                        wait_turn(idx, nxt)
+                        if wait_turn(idx, nxt) and empty_seg[nxt]:
+                            in_last[idx] = True  # resumes into a segment without statement starts
                 else:
                     in_last[idx] = True  # executes the statement; it blocks or the thread ends
 
